@@ -102,7 +102,7 @@ class FaultyFile(object):
 class C18(object):
     id = "C18"
     engine = "histsim"
-    tiers = {"quick": {"runs": 4000, "budget_s": 60, "selftest_every": 50, "fresh_selftest": 8},
+    tiers = {"quick": {"runs": 8000, "budget_s": 60, "selftest_every": 50, "fresh_selftest": 8},
              "thorough": {"runs": 800000, "budget_s": 800, "selftest_every": 500, "fresh_selftest": 16}}
     rule = ("one run = a history of 2..14 save/load/re-save operations over 1..3 slots of one format family (text "
             "columnfile | hdf columnfile | parameters | grains text | grains hdf | ubi | sparse frame hdf), every load "
